@@ -209,7 +209,8 @@ def check_context_processor(acc):
     from mc import wsgi
     DEF, RES = chain.Tok('cp-default'), chain.Tok('cp-route-resource')
     for kind in ('ContextProcessor', 'SimpleContextProcessor', 'overwrite'):
-        reqs = [('/with/u1', 'u1'), ('/with/u2', 'u2'), ('/res', RES), ('/without', DEF if kind != 'SimpleContextProcessor' else None)]
+        reqs = [('/with/u1', 'u1'), ('/with/u2', 'u2'), ('/res', RES), ('/without', DEF if kind != 'SimpleContextProcessor' else None),
+                ('/opt', None)]      # /opt/<lang?> without the segment: the binding offers None, which is then the value
         for seq in itertools.permutations(reqs, 3):
             seen = []
             if kind == 'SimpleContextProcessor':
@@ -223,7 +224,8 @@ def check_context_processor(acc):
             def render(context):
                 seen.append(context.get('lang', 'ABSENT'))
                 return Response('ok')
-            app = Application([Route('/with/<lang>', ep, render), Route('/res', ep, render, resources={'lang': RES}),
+            app = Application([Route('/with/<lang>', ep, render), Route('/opt/<lang?>', ep, render),
+                               Route('/res', ep, render, resources={'lang': RES}),
                                Route('/without', ep, render)], middlewares=[cp])
             for j, (path, want) in enumerate(seq * 2):
                 del seen[:]
@@ -407,6 +409,8 @@ def shard(tier, i, n, seed):
                               % (cfg, e), {'cfg': cfg, 'layer': 'LG'})
     if i == 2 % n:
         check_context_processor(acc)
+    if i == 6 % n:
+        c01.check_bundled_providers(acc, 'C02')
     acc.extra['hashseed_digest'] = [digest.hexdigest()]
     acc.extra['hashseed_common_cases'] = [ncommon]
     return acc
@@ -439,6 +443,11 @@ def replay_rebound(case):
 
 
 def replay(case):
+    if case.get('layer') == 'bundled-providers':
+        common.setup_repo()
+        acc = common.Acc()
+        c01.check_bundled_providers(acc, 'C02')
+        return (False, acc.violations[0]['desc']) if acc.violations else (True, 'ok')
     if case.get('layer') == 'CP':
         common.setup_repo()
         acc = common.Acc()
